@@ -190,6 +190,9 @@ func NewElementFromEdge(e *gripql.Edge) *Edge {
 
 // ToVertex converts data element to vertex
 func (elem *DataElement) ToVertex() *gripql.Vertex {
+	if elem == nil {
+		return nil
+	}
 	sValue, err := structpb.NewStruct(elem.Data)
 	if err != nil {
 		fmt.Printf("Error: %s %#v\n", err, elem.Data)
@@ -203,6 +206,9 @@ func (elem *DataElement) ToVertex() *gripql.Vertex {
 
 // ToEdge converts data element to edge
 func (elem *DataElement) ToEdge() *gripql.Edge {
+	if elem == nil {
+		return nil
+	}
 	sValue, _ := structpb.NewStruct(elem.Data)
 	return &gripql.Edge{
 		Gid:   elem.ID,
